@@ -83,7 +83,6 @@ func applyPatch(c *Ctx, repoPkg, key string, steps []PatchStep) (bool, string) {
 	return false, fmt.Sprintf("after the reviewed edits the in-tree function still differs at token %d: expected [%s] got [%s]", i, strings.Join(a[lo:hiA], " "), strings.Join(b[lo:hiB], " "))
 }
 
-
 // equivPackage compares every function of in-tree package rel with the reference. Functions that are
 // not equivalent must be listed in dev; functions of the reference that are missing in-tree must be
 // listed in missingOK.
